@@ -42,7 +42,9 @@
 //! skips — form feed, U+FEFF — that `WhitespaceCharacter` lacks), `no-overload:header-layout`
 //! (the header is not the single-space canonical `kind Type.field` form the patterns spell),
 //! `no-overload:other`, `wrong-overload:prefix` (an earlier overload's pattern is a prefix),
-//! `wrong-overload:return-type`, `wrong-overload:import-path`.
+//! `wrong-overload:return-type`, `wrong-overload:underscore-name-collision` (the return type
+//! has the expected name but is imported from another declaration's directory: `A.b__c` and
+//! `A__b.c` share `A__b__c__param`).
 
 use vcore::Fail;
 
@@ -453,8 +455,10 @@ pub fn check_literal(iso: &IsoFile, lit: &IsoLiteral) -> Result<(), Fail> {
             }
             if let Some(p) = &o.import_path {
                 if *p != expected_path {
+                    // the name is right and the file is wrong: two declarations `A.b__c` / `A__b.c`
+                    // share the identifier `A__b__c__param`
                     return Err(Fail::new(
-                        "wrong-overload:import-path",
+                        "wrong-overload:underscore-name-collision",
                         format!(
                             "{} {}.{}: selected {} whose return type is imported from {}, expected {}",
                             lit.kind.keyword(),
